@@ -151,7 +151,7 @@ func workC15(req *Request, set []byte) {
 					continue
 				}
 				a, err1 := descgen.InternalRootTerm(ref.To)
-				b, err2 := descgen.RootTerm(ref.To.ToJ5Root())
+				b, err2 := descgen.RootTermAsReflected(ref.To.ToJ5Root())
 				if err1 != nil || err2 != nil {
 					o.Viol = append(o.Viol, fmt.Sprintf("dump: %s.%s: %v %v", pkg.Name, name, err1, err2))
 					continue
